@@ -177,6 +177,34 @@ func runC02(c *eng.Ctx) {
 		ne := facts.Find(facts.At(del.Instr), "ne", eng.DescIs("v"), eng.DescSuffix(".current"))
 		c.Check(len(ne) > 0, "not-current", del.Instr, f, "a version is removed from the active set only when it is not the current one", "facts: "+strings.Join(facts.Render(facts.At(del.Instr)), " ; "))
 		c.Check(p.Locks(f, nil).At(del.Instr).HasField(fvMu, true), "locked", del.Instr, f, "the active set is changed under the write lock", "")
+		// … and only when nobody holds it: the count that made Release call us was read before this lock was taken, and GetSnapshot
+		// retains the CURRENT version under the read lock - between the two a reader may have retained it and a commit retired it (F48)
+		ls := p.Locks(f, nil)
+		okZero, why := false, "no NumOfRef() == 0 test under the lock"
+		for _, s := range p.Sites(f, func(p *eng.Prog, in ssa.Instruction) bool {
+			cl, ok := in.(*ssa.Call)
+			if !ok {
+				return false
+			}
+			if cl.Common().IsInvoke() {
+				return cl.Common().Method.Name() == "NumOfRef"
+			}
+			fa, m, _ := eng.AtomicOp(cl)
+			return fa != nil && m == "Load" && strings.HasSuffix(eng.FieldKeyOfAddr(fa), ".ref")
+		}) {
+			z := facts.Find(facts.At(del.Instr), "eq", func(_ string, v ssa.Value) bool { return v == s.Instr.(ssa.Value) }, eng.DescIs("0"))
+			if len(z) == 0 {
+				why = "the count read at " + p.InstrPos(s.Instr) + " does not guard the delete"
+				continue
+			}
+			if ok, w := ls.SameHold(s.Instr, del.Instr, fvMu, true); !ok {
+				why = "the count is read outside the hold that deletes: " + w
+				continue
+			}
+			okZero = true
+		}
+		c.Check(okZero, "unreferenced-under-the-lock", del.Instr, f,
+			"a version is removed from the active set only when its reference count is zero as read INSIDE the write hold that removes it (a snapshot retains the current version under the read lock of the same mutex)", why)
 	})
 
 	// ---- 6/7/8. the keep-set ------------------------------------------------------------------------------------------
